@@ -2,6 +2,7 @@ package main
 
 import (
 	"fmt"
+	"go/constant"
 	"go/token"
 	"go/types"
 	"sort"
@@ -3350,10 +3351,11 @@ func (p *Prog) collectLoopAscends() []Ob {
 }
 
 // R11 L9 / L10 (C07): what Check may call fine, and what Recover may give up on.
-//   L9  Check returns success only where the stored index was compared equal with the derived one, or
-//       where the index file does not exist;
-//   L10 Recover never hands on an error of reading the index where that error is of the index's
-//       corruption class: damage in the index (including its header flags) is what Recover repairs.
+//
+//	L9  Check returns success only where the stored index was compared equal with the derived one, or
+//	    where the index file does not exist;
+//	L10 Recover never hands on an error of reading the index where that error is of the index's
+//	    corruption class: damage in the index (including its header flags) is what Recover repairs.
 func (p *Prog) checkAndRecoverVerdicts() []Ob {
 	var obs []Ob
 	ea := p.ErrAtomsCached()
@@ -3604,4 +3606,215 @@ func (p *Prog) timeIdentity() []Ob {
 		ob.Status, ob.Msg = Discharged, fmt.Sprintf("%d comparisons in the module, none of them between time.Time structs", n)
 	}
 	return []Ob{ob}
+}
+
+// ---------------------------------------------------------------------------
+// R27b REWRITE-DROPS-THE-OLD-INDEX (C03, C12): after a delete rewrote the head's files, every index
+// built before is stale (it lists the deleted messages and positions of the old file). A head-writer
+// method that applies a rewrite hands back readers that load their index from the new files; it never
+// builds one around an index it already had.
+func (p *Prog) rewriteDropsOldIndex() []Ob {
+	var obs []Ob
+	r := p.R
+	preinstalls := func(g *ssa.Function) bool {
+		if g == nil || g.Blocks == nil {
+			return false
+		}
+		for _, b := range g.Blocks {
+			for _, ins := range b.Instrs {
+				if st, ok := ins.(*ssa.Store); ok {
+					if fa, ok := st.Addr.(*ssa.FieldAddr); ok && fieldVarOfAddr(fa) == r.SRIndex && underConstruction(fa) && !isNilConst(st.Val) {
+						// opened for appending (shares the live index of a new writer) is not a kept reader
+						return true
+					}
+				}
+			}
+		}
+		return false
+	}
+	for _, fn := range p.Funcs {
+		if !srcFunc(fn) || recvNamed(fn) != r.HeadWriter {
+			continue
+		}
+		takesRewrite := false
+		for _, pr := range fn.Params {
+			if namedOf(derefPtr(pr.Type())) == r.RewriteSegment {
+				takesRewrite = true
+			}
+		}
+		if !takesRewrite {
+			continue
+		}
+		ob := Ob{Rule: "R27", Inst: "b:rewrite-drops-old-index:" + funcLabel(fn), Props: []string{"C03", "C12"}, Pos: p.posStr(fn.Pos()), Func: funcLabel(fn), Nontrivial: true}
+		var bad []string
+		for _, b := range fn.Blocks {
+			for _, ins := range b.Instrs {
+				c, ok := ins.(*ssa.Call)
+				if !ok {
+					continue
+				}
+				g := c.Common().StaticCallee()
+				if g == nil || !inModule(g) {
+					continue
+				}
+				// a reader constructor that takes an index, called directly or through a method of the
+				// old writer (which can only hand it the old index)
+				if preinstalls(g) && recvNamed(g) == nil && g.Signature.Results().Len() == 1 {
+					// constructors of the new writer build their own fresh index: only flag those whose
+					// index argument comes from the receiver's own index object
+					for _, a := range c.Call.Args {
+						if f, _ := loadedField(canon(a)); f == r.HWIndex {
+							bad = append(bad, p.at(c)+": a reader is built around the old writer's index")
+						}
+						if ic, ok := canon(a).(*ssa.Call); ok && len(ic.Call.Args) > 0 {
+							if f, _ := loadedField(canon(ic.Call.Args[0])); f == r.HWIndex {
+								bad = append(bad, p.at(c)+": a reader is built around a snapshot of the old writer's index")
+							}
+						}
+					}
+				}
+				if recvNamed(g) == r.HeadWriter && g != fn && p.reaches(g, func(h *ssa.Function) bool {
+					return h != g && preinstalls(h) && recvNamed(h) == nil && h.Signature.Results().Len() == 1 && !p.reaches(h, isFunc(pkgMessage+".OpenReader"))
+				}) {
+					if len(c.Call.Args) > 0 && c.Call.Args[0] == ssa.Value(fn.Params[0]) {
+						bad = append(bad, p.at(c)+": "+shortCallee(g)+" of the old writer builds a reader around the index from before the rewrite")
+					}
+				}
+			}
+		}
+		if len(bad) > 0 {
+			ob.Status, ob.Msg, ob.Path = Violated, "a reader handed back after a delete in the head keeps an index built before the rewrite: it lists deleted messages and positions of the old file", uniqSorted(bad)
+		} else {
+			ob.Status, ob.Msg = Discharged, "the readers handed back after a delete in the head load their index from the rewritten files"
+		}
+		obs = append(obs, ob)
+	}
+	return obs
+}
+
+// R28c NEWEST-BY-EQUALITY (C03, C04): in the pure lookups over segments and items, the answer "the
+// last one" for a relative offset is given only where the offset was compared equal with OffsetNewest
+// (or where a comparison with a stored offset put it there); a test of the sign alone sends every
+// negative cursor to the end.
+func (p *Prog) newestByEquality() []Ob {
+	var obs []Ob
+	newest := int64(-1)
+	if pk := p.SSA.ImportedPackage(pkgMessage); pk != nil {
+		if c, ok := pk.Pkg.Scope().Lookup("OffsetNewest").(*types.Const); ok {
+			if v, ok := constant.Int64Val(c.Val()); ok {
+				newest = v
+			}
+		}
+	}
+	for _, fn := range p.Funcs {
+		if !srcFunc(fn) || fn.Parent() != nil || fn.Signature.Recv() != nil {
+			continue
+		}
+		pk := funcPkgPath(fn)
+		if pk != pkgIndex && pk != modPath+"/pkg/segment" {
+			continue
+		}
+		if fn.Origin() != nil {
+			continue // the generic body is judged once
+		}
+		base := fn.Name()
+		if base != "Consume" && base != "Get" {
+			continue
+		}
+		var offParam *ssa.Parameter
+		for _, pr := range fn.Params {
+			if b, ok := pr.Type().Underlying().(*types.Basic); ok && b.Kind() == types.Int64 {
+				offParam = pr
+			}
+		}
+		if offParam == nil {
+			continue
+		}
+		isLastIndex := func(v ssa.Value) bool {
+			bo, ok := stripConv(v).(*ssa.BinOp)
+			if !ok || bo.Op != token.SUB {
+				return false
+			}
+			k, isK := constInt(bo.Y)
+			c, isC := bo.X.(*ssa.Call)
+			return isK && k == 1 && isC && isBuiltinCall(c.Common(), "len")
+		}
+		n := 0
+		var bad []string
+		for _, b := range fn.Blocks {
+			rt, ok := terminator(b).(*ssa.Return)
+			if !ok {
+				continue
+			}
+			// is the first result (read from) the last element?
+			var fromLast func(v ssa.Value, d int) bool
+			fromLast = func(v ssa.Value, d int) bool {
+				if d > 6 {
+					return false
+				}
+				switch x := v.(type) {
+				case *ssa.UnOp:
+					return fromLast(x.X, d+1)
+				case *ssa.FieldAddr:
+					return fromLast(x.X, d+1)
+				case *ssa.Field:
+					return fromLast(x.X, d+1)
+				case *ssa.IndexAddr:
+					return isLastIndex(x.Index)
+				case *ssa.Alloc:
+					if sts := allocStores(x); len(sts) == 1 {
+						return fromLast(sts[0].Val, d+1)
+					}
+				}
+				return false
+			}
+			if len(rt.Results) == 0 || !fromLast(rt.Results[0], 0) {
+				continue
+			}
+			n++
+			okR := false
+			for _, hb := range fn.Blocks {
+				iff, isIf := terminator(hb).(*ssa.If)
+				if !isIf {
+					continue
+				}
+				x, y, op, ok := relCond(iff.Cond)
+				if !ok {
+					continue
+				}
+				involves := canon(x) == ssa.Value(offParam) || canon(y) == ssa.Value(offParam)
+				if !involves {
+					continue
+				}
+				other := y
+				if canon(y) == ssa.Value(offParam) {
+					other = x
+				}
+				if k, isK := constInt(other); isK {
+					if k == newest && ((op == token.EQL && edgeDominates(hb, 0, b)) || (op == token.NEQ && edgeDominates(hb, 1, b))) {
+						okR = true
+					}
+					continue
+				}
+				// a comparison with a stored offset (a field load or a GetOffset call)
+				if edgeDominates(hb, 0, b) || edgeDominates(hb, 1, b) {
+					okR = true
+				}
+			}
+			if !okR {
+				bad = append(bad, p.at(rt)+": the last element is the answer although the offset was neither compared equal with OffsetNewest nor with a stored offset")
+			}
+		}
+		if n == 0 {
+			continue
+		}
+		ob := Ob{Rule: "R28", Inst: "c:newest-by-equality:" + funcLabel(fn), Props: []string{"C03", "C04"}, Pos: p.posStr(fn.Pos()), Func: funcLabel(fn), Nontrivial: true}
+		if len(bad) > 0 {
+			ob.Status, ob.Msg, ob.Path = Violated, "a relative offset is recognised by its sign: every negative cursor other than OffsetOldest is answered from the end, stepping over all older messages", bad
+		} else {
+			ob.Status, ob.Msg = Discharged, fmt.Sprintf("%d return(s) of the last element, each behind offset == OffsetNewest or a comparison with a stored offset", n)
+		}
+		obs = append(obs, ob)
+	}
+	return obs
 }
